@@ -52,7 +52,7 @@ meta("C01", level="exploration",
 @plan("C01")
 def _c01(bindir, tier, seed):
     if tier == QUICK:
-        return shards(bindir, "fmt_driver", "C01", seed, NCPU, ["--mode", "c01", "--cases", "1500"], 240)
+        return shards(bindir, "fmt_driver", "C01", seed, NCPU, ["--mode", "c01", "--cases", "4000"], 600)
     return shards(bindir, "fmt_driver", "C01", seed, NCPU, ["--mode", "c01", "--cases", "60000"], 1800)
 
 
@@ -72,7 +72,7 @@ meta("C02", level="exploration",
 @plan("C02")
 def _c02(bindir, tier, seed):
     if tier == QUICK:
-        return shards(bindir, "fmt_driver", "C02", seed, NCPU, ["--mode", "c02", "--cases", "6000"], 240)
+        return shards(bindir, "fmt_driver", "C02", seed, NCPU, ["--mode", "c02", "--cases", "40000"], 600)
     jobs = shards(bindir, "fmt_driver", "C02", seed, NCPU, ["--mode", "c02", "--cases", "400000"], 1800)
     # exhaustive 32-bit sweeps, 32 slices each
     n = 32
@@ -101,7 +101,7 @@ meta("C03", level="fault_enumeration",
 @plan("C03")
 def _c03(bindir, tier, seed):
     if tier == QUICK:
-        return shards(bindir, "fmt_driver", "C03", seed, NCPU, ["--mode", "c03", "--maxlen", "6", "--cases", "300"], 240)
+        return shards(bindir, "fmt_driver", "C03", seed, NCPU, ["--mode", "c03", "--maxlen", "7", "--cases", "3000"], 600)
     return shards(bindir, "fmt_driver", "C03", seed, NCPU, ["--mode", "c03", "--maxlen", "10", "--cases", "20000"], 1800)
 
 
@@ -119,7 +119,7 @@ meta("C04", level="exploration",
 @plan("C04")
 def _c04(bindir, tier, seed):
     if tier == QUICK:
-        return shards(bindir, "fmt_driver", "C04", seed, NCPU, ["--mode", "c04", "--cases", "1200"], 240)
+        return shards(bindir, "fmt_driver", "C04", seed, NCPU, ["--mode", "c04", "--cases", "6000"], 600)
     return shards(bindir, "fmt_driver", "C04", seed, NCPU, ["--mode", "c04", "--cases", "60000"], 1800)
 
 
@@ -142,8 +142,8 @@ def frame_jobs(bindir, prop, tier, seed, faults):
     f = "all" if faults else "none"
     jobs = []
     if tier == QUICK:
-        en = ["--maxcap", "4", "--maxlen", "4"] if faults else ["--maxcap", "6", "--maxlen", "5"]
-        rnd, spy, dele = 400, 300, 30
+        en = ["--maxcap", "5", "--maxlen", "4"] if faults else ["--maxcap", "8", "--maxlen", "5"]
+        rnd, spy, dele = 3000, 2500, 150
     else:
         en = ["--maxcap", "5", "--maxlen", "5"] if faults else ["--maxcap", "8", "--maxlen", "6"]
         rnd, spy, dele = 40000, 30000, 1500
@@ -154,7 +154,7 @@ def frame_jobs(bindir, prop, tier, seed, faults):
     if not faults:
         jobs += shards(bindir, "frame_driver", prop + "-delegate", seed, 8, base + ["--mode", "delegate", "--cases", str(dele)], 3000)
     # W3/W4: the buffered UDP / Unix sinks on real sockets, observed at the interposed sendto
-    jobs += shards(bindir, "sock_driver", prop + "-sockets", seed, 4, ["--property", prop, "--mode", "buffered", "--cases", "150" if tier == QUICK else "5000"], 3000)
+    jobs += shards(bindir, "sock_driver", prop + "-sockets", seed, 4, ["--property", prop, "--mode", "buffered", "--cases", "800" if tier == QUICK else "5000"], 3000)
     return jobs
 
 
@@ -214,23 +214,25 @@ Q_CONC = ("concurrent histories (2-8 producers on own clones or one shared handl
           "for sequential runs, (capacity, #producers, producer-id trigram in delivery order) for concurrent runs, (window, capacity, counter triple) for forced windows")
 
 
-def q_jobs(bindir, prop, tier, seed, seq_enum=True, caps="unbounded,1,2,3", drop_matrix=False, outcomes=None, focus="mixed", windows=True, seq_random=True, conc=True, miri=False):
+def q_jobs(bindir, prop, tier, seed, seq_enum=True, caps="unbounded,1,2,3", drop_matrix=False, outcomes=None, focus="mixed", windows=True, seq_random=True, conc=True, miri=False, blocked=False):
     quick = tier == QUICK
     jobs = []
     base = ["--property", prop]
     if seq_enum:
-        jobs += shards(bindir, "queue_driver", prop + "-seqenum", seed, NCPU, base + ["--mode", "seq-enum", "--maxlen", "4" if quick else "6", "--caps", caps, "--max-handles", "2"], 3400)
+        jobs += shards(bindir, "queue_driver", prop + "-seqenum", seed, NCPU, base + ["--mode", "seq-enum", "--maxlen", "5" if quick else "6", "--caps", caps, "--max-handles", "2"], 3400)
     if drop_matrix:
         jobs += shards(bindir, "queue_driver", prop + "-dropmatrix", seed, 8, base + ["--mode", "drop-matrix", "--maxpat", "3" if quick else "5"], 3400)
     if outcomes:
         alpha, nq, nt = outcomes
         jobs += shards(bindir, "queue_driver", prop + "-outcomes", seed, NCPU, base + ["--mode", "outcomes", "--alphabet", alpha, "--n", str(nq if quick else nt)], 3400)
     if seq_random:
-        jobs += shards(bindir, "queue_driver", prop + "-seqrandom", seed, NCPU, base + ["--mode", "seq-random", "--focus", focus, "--cases", "150" if quick else "12000"], 3400)
+        jobs += shards(bindir, "queue_driver", prop + "-seqrandom", seed, NCPU, base + ["--mode", "seq-random", "--focus", focus, "--cases", "1200" if quick else "12000"], 3400)
     if conc:
-        jobs += shards(bindir, "queue_conc", prop + "-conc", seed, NCPU, base + ["--mode", "conc", "--focus", focus, "--cases", "10" if quick else "1200"], 3400)
+        jobs += shards(bindir, "queue_conc", prop + "-conc", seed, NCPU, base + ["--mode", "conc", "--focus", focus, "--cases", "40" if quick else "1200"], 3400)
     if windows:
-        jobs += shards(bindir, "queue_conc", prop + "-windows", seed, 2 if quick else 8, base + ["--mode", "windows", "--cases", "2" if quick else "200"], 3400)
+        jobs += shards(bindir, "queue_conc", prop + "-windows", seed, 2 if quick else 8, base + ["--mode", "windows", "--cases", "12" if quick else "200"], 3400)
+    if blocked:
+        jobs += shards(bindir, "queue_conc", prop + "-blocked", seed, NCPU, base + ["--mode", "blocked", "--cases", "60" if quick else "4000"], 3400)
     # Miri: compact histories under a random preemptive scheduler, hooks off; virtual-time quiescence
     if miri:
         if quick:
@@ -258,9 +260,11 @@ meta("C10", level="exploration",
      rule="rule R5: sequential and exact with the worker parked inside the gated sink: emit returns Ok iff accepted - handed_over < capacity (distinguishes capacity c from c+-1), always Ok when "
           "unbounded, Ok(n) => n == len, emit returns while the gate is closed (a call that blocks for good is detected by the calling thread's /proc state), ENTER never on a caller thread, no "
           "wrapped-sink error text or panic in any emit result; under concurrency the tolerant bounds of DESIGN.md appendix C (definite over-acceptance / definite false refusal); a forced window "
-          "parks the worker after taking one entry and probes that exactly `capacity` further metrics are accepted; " + Q_SEQ + Q_CONC,
+          "parks the worker after taking one entry and probes that exactly `capacity` further metrics are accepted; blocked-sink races: with the worker parked inside the closed gate, 2-16 "
+          "producers released by a barrier hammer emit (also with 200 KB metrics) - every emit must return while the gate stays closed (else the producers' /proc state is the verdict) and "
+          "exactly `capacity` are accepted; " + Q_SEQ + Q_CONC,
      assumptions=Q_ASSUME, exhaustive_scope="the sequential op-sequence enumeration up to the stated length",
-     min_evaluations=2000, must_observe={"emits_refused": 500, "emits_accepted": 2000, "capacity_bound_checks": 500, "capacity_probes_with_worker_parked": 2})
+     min_evaluations=2000, must_observe={"emits_refused": 500, "emits_accepted": 2000, "capacity_bound_checks": 500, "capacity_probes_with_worker_parked": 2, "blocked_sink_races": 100, "exact_capacity_under_race_checks": 100})
 meta("C11", level="fault_enumeration",
      rule="rule R6: EVERY assignment of {ok, err, panic} to n <= N queued metrics (N=6 quick, 9 thorough) in three arrangements (all queued before any outcome happens; one at a time; queued, "
           "released one by one, then a further metric accepted after the panics), random panic-heavy sequential histories, concurrent producers with panicking wrapped sink; R1-R3 must hold for "
@@ -294,7 +298,7 @@ def _c09(bindir, tier, seed):
 
 @plan("C10")
 def _c10(bindir, tier, seed):
-    return q_jobs(bindir, "C10", tier, seed)
+    return q_jobs(bindir, "C10", tier, seed, blocked=True)
 
 
 @plan("C11")
@@ -415,7 +419,7 @@ def tsan_job(name, prop, binname, prog_args, timeout, runs=1):
 @plan("C18")
 def _c18(bindir, tier, seed):
     if tier == QUICK:
-        jobs = shards(bindir, "holder_driver", "C18", seed, NCPU - 2, ["--level", "core", "--max-schedules", "3000"], 1200)
+        jobs = shards(bindir, "holder_driver", "C18", seed, NCPU - 2, ["--level", "core", "--max-schedules", "8000"], 1200)
         jobs.append(miri_job("C18-miri-holder", "C18", "holder_stress", ["3", "2", "2", "3"], 16, seed, 1500))
         return jobs
     jobs = shards(bindir, "holder_driver", "C18", seed, NCPU, ["--level", "full", "--max-schedules", "400000"], 7200)
@@ -438,8 +442,8 @@ meta("C17", level="exploration",
 
 @plan("C17")
 def _c17(bindir, tier, seed):
-    n = 24 if tier == QUICK else 600
-    rounds = "2" if tier == QUICK else "6"
+    n = 48 if tier == QUICK else 600
+    rounds = "3" if tier == QUICK else "6"
     jobs = []
     for i in range(n):
         argv = [B(bindir, "macro_driver"), "--cfg-seed", str(seed * 100003 + i), "--rounds", rounds, "--out", "{out}"]
@@ -467,9 +471,9 @@ meta("C12", level="exploration",
 @plan("C12")
 def _c12(bindir, tier, seed):
     q = tier == QUICK
-    jobs = shards(bindir, "conc_driver", "C12-spy", seed, 8, ["--sink", "spy", "--cases", "5" if q else "150"], 3000)
-    jobs += shards(bindir, "conc_driver", "C12-unix", seed, 4, ["--sink", "unix", "--cases", "3" if q else "100"], 3000)
-    jobs += shards(bindir, "conc_driver", "C12-udp", seed, 4, ["--sink", "udp", "--cases", "3" if q else "100"], 3000)
+    jobs = shards(bindir, "conc_driver", "C12-spy", seed, 8, ["--sink", "spy", "--cases", "20" if q else "150"], 3000)
+    jobs += shards(bindir, "conc_driver", "C12-unix", seed, 4, ["--sink", "unix", "--cases", "10" if q else "100"], 3000)
+    jobs += shards(bindir, "conc_driver", "C12-udp", seed, 4, ["--sink", "udp", "--cases", "10" if q else "100"], 3000)
     return jobs
 
 
@@ -498,16 +502,16 @@ meta("C14", level="exploration",
 @plan("C13")
 def _c13(bindir, tier, seed):
     q = tier == QUICK
-    jobs = shards(bindir, "sock_driver", "C13-unbuffered", seed, 8, ["--property", "C13", "--mode", "unbuffered", "--cases", "40" if q else "2500"], 3000)
-    jobs += shards(bindir, "sock_driver", "C13-buffered", seed, 8, ["--property", "C13", "--mode", "buffered", "--cases", "150" if q else "8000"], 3000)
+    jobs = shards(bindir, "sock_driver", "C13-unbuffered", seed, 8, ["--property", "C13", "--mode", "unbuffered", "--cases", "250" if q else "2500"], 3000)
+    jobs += shards(bindir, "sock_driver", "C13-buffered", seed, 8, ["--property", "C13", "--mode", "buffered", "--cases", "1000" if q else "8000"], 3000)
     return jobs
 
 
 @plan("C14")
 def _c14(bindir, tier, seed):
     q = tier == QUICK
-    jobs = shards(bindir, "sock_driver", "C14-enum", seed, 8, ["--property", "C14", "--mode", "stats-enum", "--maxlen", "6" if q else "10"], 3000)
-    jobs += shards(bindir, "sock_driver", "C14-stats", seed, 8, ["--property", "C14", "--mode", "stats", "--cases", "25" if q else "1500"], 3000)
+    jobs = shards(bindir, "sock_driver", "C14-enum", seed, 8, ["--property", "C14", "--mode", "stats-enum", "--maxlen", "7" if q else "10"], 3000)
+    jobs += shards(bindir, "sock_driver", "C14-stats", seed, 8, ["--property", "C14", "--mode", "stats", "--cases", "120" if q else "1500"], 3000)
     return jobs
 
 
@@ -530,6 +534,6 @@ meta("C20", level="exploration",
 def _c20(bindir, tier, seed):
     q = tier == QUICK
     jobs = []
-    for area, n, cases_q, cases_t in (("format", 8, 12, 1500), ("writer", 3, 3000, 400000), ("sinks", 2, 300, 40000), ("queue", 2, 300, 30000), ("misc", 1, 50, 2000)):
+    for area, n, cases_q, cases_t in (("format", 8, 30, 1500), ("writer", 3, 20000, 400000), ("sinks", 2, 1500, 40000), ("queue", 2, 1500, 30000), ("misc", 1, 200, 2000)):
         jobs += shards(bindir, "hostile_driver", "C20-" + area, seed, n, ["--area", area, "--cases", str(cases_q if q else cases_t)], 3400)
     return jobs
